@@ -436,7 +436,7 @@ ADDENDA_R9 = {
     "C09": ("R09.12", "#ifdef, #ifndef and defined() all decide through is_manifest_defined()", "single-judge rule (who may search the macro table)"),
     "C10": ("R10.11", "each base class contributes its virtual functions through a list of its own", "declaration placement of the argument of the recursive call"),
     "C13": ("R13.7", "the global flag survives losing the merge", "provenance of a saved value across an assignment of *this"),
-    "C15": ("R15.28, R15.29", "lookups that follow using-directives carry a visited set (found F-C15aa, repaired); a CPPManifest the push_macro stack may share is never freed", "must-pass-through of `visited.insert(this).second`; who-may-delete"),
+    "C15": ("R15.28-R15.30", "lookups that follow using-directives carry a visited set (found F-C15aa, repaired); a CPPManifest the push_macro stack may share is never freed; a constant is evaluated through its initializer only while it is not already being evaluated (found F-C15ab, repaired)", "must-pass-through of `<set>.insert(x).second`; who-may-delete"),
     "C16": ("R16.6", "whether an inter-library edge is recorded does not depend on the state of the map under construction", "condition-read analysis"),
     "C17": ("chdir clause of R17.9", "no make_absolute() can run after main() changed directory", "reachability from the chdir() call"),
     "C18": ("R18.9", "the digit generator's interval width is taken after both boundaries were pulled inwards", "must-pass-through"),
